@@ -168,7 +168,7 @@ def gen_cases(ctx):
             for items in rng.sample(ins, min(3, len(ins))):
                 add('sample3', TOPS[0], sub, items)
     # random specs up to 6 nodes: inputs biased towards acceptance, then a malformed stream
-    n_rand = 60000 if ctx.thorough else 6000
+    n_rand = 60000 if ctx.thorough else 15000
     for i in range(n_rand):
         top, sub = pg.gen_spec(rng, max_nodes=6, depth=2 if rng.random() < 0.8 else 3)
         items = pg.gen_good_items(rng, top, sub, set())
@@ -245,6 +245,7 @@ def run(ctx):
             distinct.add(lines[idx].split(' RAW ')[0] + '|' + r['obs'])
         if len(kind) > 2:
             errpaths += 1
+    failures.sort(key=lambda f: len(str(f['case'])))          # report the smallest failing input first
     return dict(
         evaluations=len(cases), distinct_nontrivial=len(distinct),
         rule='every spec with <= 2 ports (<= 3 in the thorough tier) over the attribute alphabet x inputs over a small value alphabet '
